@@ -48,6 +48,12 @@ class C18(Prop):
             self.model("MC_Clifford", "MC_Clifford_maps_n%d.cfg" % n, name="maps_n%d" % n, print_file=pf,
                        expect_distinct=(24 if n == 1 else 11520))
             self.maps[n] = [m for m, _ in read_maps(pf)]
+        self.dense = []
+        r24 = self.model("MC_RotSim", "MC_RotSim_n24.cfg", name="rotsim_n24", workers=1, simulate="num=%d" % (3 if self.tier == "thorough" else 1),
+                         depth=14, seed=self.seed + 224, collect=True, timeout=1500)
+        for e in r24.printed:
+            if e[0] == "S" and e[1] in (10, 14):
+                self.dense.append((24, e[3]))
         self.big = []
         self.groups = []      # (n, [signed elements of a stabilizer group incl. the identity]) -- computed by TLC
         nb = 60 if self.tier == "thorough" else 12
@@ -102,6 +108,9 @@ class C18(Prop):
                 yield s
         for n, m in self.big:
             yield {"k": "diagstate", "rows": ins_to_state(m)}
+        # dense 24-qubit states (TLC walk): the decoding map is derived by a 48 x 48 GF(2) inversion
+        for n, m in self.dense:
+            yield {"k": "diagstate", "rows": ins_to_state(m), "wide": True}
         # SBRG
         for j, (n, m) in enumerate(self.big):
             rows = ins_to_state(m)[:n]
@@ -193,6 +202,9 @@ class C18(Prop):
                 circ.backward(Z)
                 rec["bwd"] = be.p_state(Z)
                 rec["pre1"] = be.p_state(S)
+                if scn.get("wide"):
+                    # (groups of 2^24 elements are not enumerated: other field names, row-level clause WideStateDiagOK)
+                    rec = {"op": "widediagstate", "wpre": rec["pre"], "wfwd": rec["fwd"], "wbwd": rec["bwd"], "wpre1": rec["pre1"]}
                 return [rec]
             if k == "sbrg":
                 n = scn["n"]
